@@ -40,6 +40,9 @@ type call struct {
 	// CancelUs > 0: the call's context is cancelled this many microseconds after the call started
 	// (possibly while it is still waiting for its turn); such a call may fail with the context's error
 	CancelUs int `json:"cancel_us,omitempty"`
+	// Exc != 0: the device answers this call's request with that exception code; the caller must get exactly that exception
+	// (for its own unit / function / transaction id) and the exchange stays one write and one reply like any other
+	Exc uint8 `json:"exc,omitempty"`
 }
 
 type closer struct {
@@ -157,6 +160,7 @@ func runConc(c concCase) harness.Result {
 		cl := plans[r.Addr]
 		return planFor(c.Kind, cl.Plan, r.FC, replyLen)
 	}
+	mon.ExcFor = func(r spec.Req) uint8 { return plans[r.Addr].Exc }
 	mon.Abandonable = func(r spec.Req) bool { return plans[r.Addr].CancelUs > 0 }
 	mon.Delay = func(r spec.Req) time.Duration { return time.Duration(plans[r.Addr].DelayUs) * time.Microsecond }
 	var do func(context.Context, packet.Request) (packet.Response, error)
@@ -321,10 +325,29 @@ func runConc(c concCase) harness.Result {
 				if c.Workers[w][m].CancelUs > 0 && (errors.Is(r.err, context.DeadlineExceeded) || errors.Is(r.err, context.Canceled)) {
 					continue // the caller gave up itself
 				}
+				if code := c.Workers[w][m].Exc; code != 0 {
+					var et *packet.ErrorResponseTCP
+					var er *packet.ErrorResponseRTU
+					switch {
+					case errors.As(r.err, &et):
+						if et.Code != code || et.UnitID != sr.Unit || et.Function != sr.FC || et.TransactionID != sr.Tx {
+							return harness.Fail("worker %d call %d (fc%d unit %d tx %d): the device answered with exception %d, the caller got %+v (arrival order: %s)", w, m, sr.FC, sr.Unit, sr.Tx, code, *et, arrivalText(arrivals))
+						}
+						continue
+					case errors.As(r.err, &er):
+						if er.Code != code || er.UnitID != sr.Unit || er.Function != sr.FC {
+							return harness.Fail("worker %d call %d (fc%d unit %d): the device answered with exception %d, the caller got %+v (arrival order: %s)", w, m, sr.FC, sr.Unit, code, *er, arrivalText(arrivals))
+						}
+						continue
+					}
+				}
 				if len(c.Closers) == 0 {
 					return harness.Fail("worker %d call %d (fc%d addr %d) failed although nobody closed the client: %v (arrival order: %s)", w, m, sr.FC, sr.Addr, r.err, arrivalText(arrivals))
 				}
 				continue
+			}
+			if code := c.Workers[w][m].Exc; code != 0 && c.Workers[w][m].CancelUs == 0 {
+				return harness.Fail("worker %d call %d (fc%d unit %d): the device answered with exception %d but the call returned a response %x", w, m, sr.FC, sr.Unit, code, r.resp.Bytes())
 			}
 			if cat.IsNilValue(r.resp) {
 				return harness.Fail("worker %d call %d: (nil, nil)", w, m)
@@ -416,6 +439,9 @@ func genConc(t *rapid.T) concCase {
 		var calls []call
 		for i := 0; i < m; i++ {
 			cl := call{FC: rapid.SampledFrom(fcs).Draw(t, "fc"), Plan: rapid.Uint64().Draw(t, "plan"), Pause: rapid.IntRange(0, 5).Draw(t, "pause")}
+			if rapid.IntRange(0, 5).Draw(t, "exception") == 0 {
+				cl.Exc = rapid.SampledFrom([]uint8{1, 2, 3, 4, 5, 6, 6, 8, 10, 11}).Draw(t, "exc_code")
+			}
 			if withCancel {
 				if rapid.IntRange(0, 2).Draw(t, "delayed") == 0 {
 					cl.DelayUs = rapid.SampledFrom([]int{500, 1500, 3000}).Draw(t, "delay_us")
